@@ -117,7 +117,7 @@ PROPS = {
                      'graphs are built from one node struct, []any, map[string]any and self-typed slices / maps'],
     ),
     'C19': dict(
-        families=['conc'], reports=['conc'], race=True, pool_pattern=True, model_cases=False,
+        families=['conc', 'concplain'], reports=['conc', 'concplain'], race=True, plain_families=['concplain'], pool_pattern=True, model_cases=False,
         proof_files=['Abstract/PoolSchedules.v', 'Abstract/MemoSchedules.v'],
         theorems='pools: c19_pool_exclusive, c19_init, c19_results_schedule_independent; caches and registries: Caches.c19_memo_inv, c19_memo_schedule_independent, c19_memo_same_as_alone, c19_nested_memo_schedule_independent, c19_registry_entries_never_change, c19_registry_monotone, c19_registry_consistent_pairs, c19_registered_before_start_independent (+ c19_registry_window_edge, c19_registry_name_collision_edge) - all schedules, protocol models',
         level='proof',
